@@ -135,7 +135,7 @@ def make_value(owner, cname, attr, seed, ent):
                 return None, None
             return zero[attr], (None if attr != "metadata" else [None])
     if mode == "int":
-        ints = {"rotation": 30, "dip": 45, "cost": 7, "end_of_hole": 120, "version": None}
+        ints = {"rotation": 30, "dip": 45, "cost": 7, "end_of_hole": 120, "version": 2}
         if attr in ints and ints[attr] is not None and not (attr in ("rotation",) and cname in ("BlockModel", "Octree") and False):
             return ints[attr], None
     if attr in ("allow_delete", "allow_move", "allow_rename", "public", "visible", "partially_hidden",
@@ -241,7 +241,7 @@ def make_value(owner, cname, attr, seed, ent):
     if attr == "contributors":
         return [STRINGS[pick(0) % len(STRINGS)], "second"], None
     if attr == "version":
-        return (2.0 if float(cur) != 2.0 else 2.1), None
+        return (2.0 if float(cur) not in (2.0,) else 2.1), None
     # fall-back by current value type (attributes a future change adds)
     if isinstance(cur, bool):
         return (not cur), None
